@@ -1,20 +1,34 @@
 #!/bin/bash
-# Full build of the Rocq development and of the extracted driver. Offline. Used by MANIFEST.setup_cmd.
-set -e
+# Full build of the Rocq development and of the extracted driver. Offline. Used by MANIFEST.setup_cmd and by
+# every check (a no-op when nothing changed). A file that fails to compile does not stop the others (make -k):
+# each check verifies that the .vo files of its own property exist and are up to date.
 cd "$(dirname "$0")/.."
 ROOT=$(pwd)
-python3 tools/gen_extract.py >/dev/null
-cd coq
-{ echo "-Q . Oak"; find Base Model Spec Proofs Props Refuted Run Extract -name "*.v" | sort; } > _CoqProject
-coq_makefile -f _CoqProject -o Makefile.coq >/dev/null
 mkdir -p "$ROOT/build"
-# Extraction writes oak_ext.ml into the cwd of coqc = coq/ ; moved below
-timeout 3000 make -f Makefile.coq -j"${JOBS:-16}" 2>&1 | tee "$ROOT/build/make.log" | grep -v '^COQC\|^COQDEP\|Closed under\|^CLEAN' || true
-test "${PIPESTATUS[0]}" = 0
-if [ -f oak_ext.ml ]; then mv -f oak_ext.ml oak_ext.mli "$ROOT/build/"; fi
+cd coq
+{ echo "-Q . Oak"; find Base Model Spec Proofs Props Refuted Run -name "*.v" | sort; } > _CoqProject.new
+if ! cmp -s _CoqProject.new _CoqProject || [ ! -f Makefile.coq ]; then
+  mv _CoqProject.new _CoqProject
+  coq_makefile -f _CoqProject -o Makefile.coq >/dev/null
+else
+  rm -f _CoqProject.new
+fi
+timeout 3300 make -k -f Makefile.coq -j"${JOBS:-16}" > "$ROOT/build/make.log" 2>&1
+MAKE_RC=$?
+grep -B1 -A6 '^Error\|Error:' "$ROOT/build/make.log" | head -60
+for core in Base/PyStr Base/Term Model/Origin Model/ClassTable Model/Node Model/Access Model/Traverse Model/Encode Run/Codec; do
+  if [ ! -f "$core.vo" ] || [ "$core.v" -nt "$core.vo" ]; then echo "build FAILED: core file $core.v did not compile"; exit 2; fi
+done
+python3 "$ROOT/tools/gen_extract.py" >/dev/null || exit 2
+if [ ! -f Extract/Extract.vo ] || [ Extract/Extract.v -nt Extract/Extract.vo ] || [ -n "$(find Run Model Base -name '*.vo' -newer Extract/Extract.vo 2>/dev/null | head -1)" ] || [ ! -f "$ROOT/build/oak_ext.ml" ]; then
+  timeout 900 coqc -Q . Oak Extract/Extract.v > "$ROOT/build/extract.log" 2>&1 || { echo "build FAILED: extraction"; tail -20 "$ROOT/build/extract.log"; exit 2; }
+  mv -f oak_ext.ml oak_ext.mli "$ROOT/build/"
+fi
 cd "$ROOT/build"
 if [ ! -x driver ] || [ oak_ext.ml -nt driver ] || [ ../ocaml/driver.ml -nt driver ]; then
   cp ../ocaml/driver.ml .
-  ocamlfind ocamlopt -O2 -w -a oak_ext.mli oak_ext.ml driver.ml -o driver 2>/dev/null || ocamlfind ocamlopt -w -a oak_ext.mli oak_ext.ml driver.ml -o driver
+  ocamlfind ocamlopt -O2 -w -a oak_ext.mli oak_ext.ml driver.ml -o driver.new 2>/dev/null || ocamlfind ocamlopt -w -a oak_ext.mli oak_ext.ml driver.ml -o driver.new || { echo "build FAILED: driver"; exit 2; }
+  mv -f driver.new driver
 fi
-echo "build ok"
+if [ "$MAKE_RC" != 0 ]; then echo "build ok (core + driver); some files failed to compile, see build/make.log"; else echo "build ok"; fi
+exit 0
